@@ -368,3 +368,34 @@ pub fn write_replay(prop: &str, f: &Failure) -> PathBuf {
 pub fn read_json(p: &Path) -> Option<Value> {
     std::fs::read_to_string(p).ok().and_then(|s| serde_json::from_str(&s).ok())
 }
+
+
+/// Runs a fixed list of cases (sharded over the workers) through the simulator and the model.
+pub fn run_case_list(ctx: &WorkerCtx, name: &str, cases: Vec<Case>, cfg: &RunCfg, out: &mut WorkerOut) {
+    if out.failure.is_some() {
+        return;
+    }
+    for (i, case) in cases.into_iter().enumerate() {
+        if i as u64 % ctx.nworkers != ctx.widx {
+            continue;
+        }
+        let _ = std::fs::write(&ctx.inflight, serde_json::to_vec(&json!({"engine":"sim","cfg":cfg_json(cfg),"case":case})).unwrap_or_default());
+        let tr = run_case(&case, cfg);
+        let rep = analyze(&tr);
+        out.evaluations += 1;
+        out.fingerprints.push(fingerprint(&case.ops));
+        out.class(&format!("{}/fixed_case", name));
+        for v in &rep.violations {
+            if v.props.iter().any(|p| *p == ctx.prop) {
+                if match_finding(&ctx.findings, &ctx.prop, &v.rule, &v.detail).is_some() {
+                    *out.known_hits.entry(v.rule.clone()).or_insert(0) += 1;
+                    continue;
+                }
+                out.failure = Some(Failure { rule: v.rule.clone(), detail: v.detail.clone(), engine: "sim".into(), input: json!({"engine":"sim","stage":name,"cfg":cfg_json(cfg),"case":case}), trace: trace_json(&tr) });
+                return;
+            } else {
+                *out.other_hits.entry(format!("{}:{}", v.props.join("/"), v.rule)).or_insert(0) += 1;
+            }
+        }
+    }
+}
